@@ -97,7 +97,7 @@ fn write_subword_fn<W: Write>(
                     char_index=$((char_index + ${{#literal}}))
                     continue 2
                 fi
-                if [[ $mode != matches && $literal == $subword* ]]; then
+                if [[ $mode != matches && -v "state_transitions[$literal_id]" && $literal == $subword* ]]; then
                     break 2
                 fi
                 if [[ $subword == $literal* && -v "state_transitions[$literal_id]" ]]; then
